@@ -2,8 +2,12 @@ def inst(name, entry, K, tiers, unwind, timeout=240):
     return dict(name=name, entry=entry, cxx=None, cdefs={}, unwind=unwind, tiers=tiers, timeout_s=timeout, mem_gb=6,
                 cbmc_flags=['--memory-leak-check'], bound='K=%d nondeterministic operations' % K)
 def group(K, tiers, insts):
-    return dict(name='k%d' % K, harness='h.cpp', tus=['src/base/QXmppTask.cpp'], cxxdefs={'VP_K': K}, models=['models.c'],
-                instances=[inst('%s_K%d' % (e, K), 'h_' + e, K, tiers, K + 2) for e in insts])
+    # ONE GROUP PER ENTRY: ll2c's explicit devirtualisation takes its candidates (std::function invokers/managers, one pair per
+    # continuation lambda) from everything reachable in the translated program. Translating all entries together multiplied the
+    # candidates at every indirect call of the schedule harnesses (measured: 17 s / 0.64 GB alone, 65 s / 2.3 GB with two more
+    # entries, out of memory at 6 GB with eight more).
+    return [dict(name='k%d_%s' % (K, e), harness='h.cpp', tus=['src/base/QXmppTask.cpp'], cxxdefs={'VP_K': K}, models=['models.c'],
+                 instances=[inst('%s_K%d' % (e, K), 'h_' + e, K, tiers, K + 2)]) for e in insts]
 def rel(name, case):
     d = inst('%s_c%d' % (name, case), 'h_' + name, 0, ('quick', 'thorough'), 4, 240); d['cdefs'] = {'VP_CASE': case}; d['cbmc_flags'] = []; d['bound'] = 'attach %s finish; continuation captures a copy of its own task' % ('before' if case else 'after'); return d
 SPEC = dict(
@@ -11,9 +15,8 @@ SPEC = dict(
     groups=[
         dict(name='rel', harness='h.cpp', tus=['src/base/QXmppTask.cpp'], cxxdefs={'VP_K': 3}, models=['models.c'],
              instances=[rel(n, c) for n in ('release_conv', 'release_same', 'release_void') for c in (1,)]),
-        group(3, ('quick', 'thorough'), ['sched_int', 'sched_void', 'sched_uptr', 'sched_int_reenter', 'observers', 'reenter_void_then', 'reenter_int_refinish', 'reenter_uptr_refinish', 'reenter_observe']),
-        group(4, ('thorough',), ['sched_int', 'sched_void', 'sched_uptr', 'sched_int_reenter']),
-    ],
+    ] + group(3, ('quick', 'thorough'), ['sched_int', 'sched_void', 'sched_uptr', 'sched_int_reenter', 'observers', 'reenter_void_then', 'reenter_int_refinish', 'reenter_uptr_refinish', 'reenter_observe'])
+      + group(4, ('thorough',), ['sched_int', 'sched_void', 'sched_uptr', 'sched_int_reenter']),
     bounds=['K<=4 (quick) / K<=6 (thorough) nondeterministic operations from {copy task, then, finish, destroy context, drop task copy, drop/copy promise}', 'result types void, int, std::unique_ptr<int>', 'at most 2 task copies and 2 promise copies'],
     assumptions=['then(ctx, f) is only called while ctx is alive (documented contract)', 'QPointer liveness is a ghost flag flipped by the harness (QtSharedPointer::ExternalRefCountData::getAndRef modelled)'],
     outside=['K beyond the bound', 'toFuture() (QFuture is Qt)'],
